@@ -29,10 +29,12 @@ package server
 
 // registerRandom: atomic test-and-set under usedRandomM: of N concurrent presentations of one random
 // exactly one observes "not used" (mutual exclusion); afterwards the random is cached with the current time.
+//@ ghost func canonKey(r [32]byte) [32]byte { return arrSet(r, 31, r[31] % 128) }
 //@ func (*State).registerRandom
 //@   requires !held(sta.usedRandomM) && locksBelow(sta.usedRandomM)
-//@   ensures testAndSet: ret0 == acq(mapHas(sta.UsedRandom, r)) && mapHas(sta.UsedRandom, r)
-//@   ensures othersKept: forall k [32]byte :: k != r ==> mapHas(sta.UsedRandom, k) == acq(mapHas(sta.UsedRandom, k)) && sta.UsedRandom[k] == acq(sta.UsedRandom[k])
+//@   # the cache key is the canonical encoding of the X25519 key: bit 255 (ignored by X25519) cleared
+//@   ensures testAndSet: ret0 == acq(mapHas(sta.UsedRandom, canonKey(r))) && mapHas(sta.UsedRandom, canonKey(r))
+//@   ensures othersKept: forall k [32]byte :: k != canonKey(r) ==> mapHas(sta.UsedRandom, k) == acq(mapHas(sta.UsedRandom, k)) && sta.UsedRandom[k] == acq(sta.UsedRandom[k])
 //@   flag noframe
 
 // AuthFirstPacket: the random is registered (test-and-set) BEFORE decryption on every path, and a
@@ -42,7 +44,7 @@ package server
 //@   modifies *
 //@ func AuthFirstPacket
 //@   requires sta != nil && transport != nil && holdsNone()
-//@   atcall decryptClientInfo requires registeredFirst: mapHas(sta.UsedRandom, fragments.randPubKey)
+//@   atcall decryptClientInfo requires registeredFirst: mapHas(sta.UsedRandom, canonKey(fragments.randPubKey))
 //@   ensures infoOnlyOnSuccess: err != nil ==> true
 //@   flag noframe
 
